@@ -418,7 +418,7 @@ func (ri *ReservationInfo) UpdateReservation(r *schedulingv1alpha1.Reservation) 
 	ri.Pod = reservationutil.NewReservePod(r)
 	ri.AllocatablePorts = util.RequestedHostPorts(ri.Pod)
 	if ri.Allocated != nil {
-		ri.Allocated = quotav1.Mask(ri.Allocated, ri.ResourceNames)
+		ri.Allocated = ri.allocatedOfAssignedPods()
 	}
 	reserved := util.GetNodeReservationFromAnnotation(r.Annotations)
 	if len(reserved) > 0 {
@@ -458,7 +458,7 @@ func (ri *ReservationInfo) UpdatePod(pod *corev1.Pod) {
 
 	ri.Pod = pod
 	ri.AllocatablePorts = util.RequestedHostPorts(pod)
-	ri.Allocated = quotav1.Mask(ri.Allocated, ri.ResourceNames)
+	ri.Allocated = ri.allocatedOfAssignedPods()
 	reserved := util.GetNodeReservationFromAnnotation(pod.Annotations)
 	if len(reserved) > 0 {
 		reserved = quotav1.Mask(reserved, ri.ResourceNames)
@@ -485,6 +485,18 @@ func (ri *ReservationInfo) UpdatePod(pod *corev1.Pod) {
 		parseError = utilerrors.NewAggregate(parseErrors)
 	}
 	ri.ParseError = parseError
+}
+
+// allocatedOfAssignedPods sums the requests of the assigned pods in the CURRENT reserved resource names.
+// Masking the previous Allocated is not enough when the reserved resource names change (restricted options,
+// allocate policy or status.allocatable updated): a newly reserved resource would miss what the assigned pods
+// already request, so the reservation would report less than it has allocated.
+func (ri *ReservationInfo) allocatedOfAssignedPods() corev1.ResourceList {
+	allocated := corev1.ResourceList{}
+	for _, requirement := range ri.AssignedPods {
+		allocated = quotav1.Add(allocated, quotav1.Mask(requirement.Requests, ri.ResourceNames))
+	}
+	return allocated
 }
 
 func (ri *ReservationInfo) AddAssignedPod(pod *corev1.Pod) {
